@@ -258,6 +258,23 @@ func feGen(r *rng, tier string, closeMode bool) *feCase {
 // for `holdMs`, so the others stay QUEUED behind the limit for that long.  Whatever a queued item does while it waits
 // (log, poll, time out), it must not run without a slot.  `holdMs` is chosen by the orchestrator: several seconds, and
 // longer than every timer constant the fact extractor finds inside the foreach provider.
+// big-list (C13, "for all item lists"): more items than any plausible batch size, failures on both sides of the powers of two
+// and in the last item; all items return at once, parallelism is large so that the case stays cheap.
+func feGenBigList(r *rng) *feCase {
+	c := &feCase{CloseAfter: -1, ClosureMs: -1, Class: "big-list", DelayMode: "zero", ParMode: "literal",
+		DeclAlt: r.chance(1, 2), DeclErr: r.chance(1, 2), DeclFailed: true}
+	n := []int{513, 520 + r.intn(200), 1025 + r.intn(40)}[r.intn(3)]
+	c.Par = []int{1, 16, 64, n}[r.intn(4)]
+	c.Items = feGenItems(r, "b", n, 0, 0, "zero")
+	for _, j := range []int{r.intn(n), 255, 256, 511, 512, n - 1, n/2 + r.intn(n/2)} {
+		if j < n && r.chance(2, 3) {
+			c.Items[j].Outcome = r.pick(feFailKinds)
+		}
+	}
+	c.EstimatedMs = 4*n/c.Par + 200
+	return c
+}
+
 func feGenLongQueue(r *rng, holdMs int, variant int) *feCase {
 	c := &feCase{CloseAfter: -1, ClosureMs: -1, Class: "long-queue", DelayMode: "long", ParMode: "literal",
 		DeclAlt: r.chance(1, 2), DeclErr: r.chance(1, 2)}
@@ -493,6 +510,13 @@ func cmdForeach(args []string) int {
 		w.emit(execForeachCase(fmt.Sprintf("foreach-%s-%d-%d", mode, c.seed, i), fc))
 	}
 	if !closeMode {
+		nBig := 1
+		if c.tier == "thorough" {
+			nBig = 6
+		}
+		for i := 0; i < nBig; i++ {
+			w.emit(execForeachCase(fmt.Sprintf("foreach-big-%d-%d", c.seed, i), feGenBigList(r.fork())))
+		}
 		for i := 0; i < nLong; i++ {
 			w.emit(execForeachCase(fmt.Sprintf("foreach-long-%d-%d", c.seed, i), feGenLongQueue(r.fork(), longMs, i+int(c.seed))))
 		}
